@@ -2,7 +2,7 @@
    the dictionary, preservation of well-formedness, refinement of every operation. *)
 From Coq Require Import List NArith Bool Arith Lia.
 From Delb.Base Require Import PyStr PyStrFacts PySplit.
-From Delb.Gen Require Import GenAttr.
+From Delb.Gen Require Import GenAttr GenAttrKey.
 From Delb.Attr Require Import AttrModel.
 Import ListNotations.
 
@@ -2057,4 +2057,134 @@ Proof.
   destruct (sys_step y1 (OValue i)) as [y2 o2] eqn:E2. cbn [fst snd] in *.
   rewrite Hab in H2. specialize (Hval (hint_of o2)). rewrite H2 in Hval. cbn [snd] in Hval. subst r2.
   destruct A2 as [A|A]; [discriminate|]. rewrite <- A. reflexivity.
+Qed.
+
+(* ------------------------------------------------------------------------------------------ *)
+(* the hand-written key function is the one generated from TagAttributes._etree_key              *)
+Lemma py_in_keys_ahas (st : list (str * str)) k : py_in_keys k st = ahas str_eqb st k.
+Proof.
+  unfold py_in_keys, ahas. induction st as [|[a w] r IH]; cbn; [reflexivity|].
+  destruct (str_eqb a k); [reflexivity|exact IH].
+Qed.
+Lemma etree_key_generated dns st q :
+  etree_key dns st q = etree_key_gen (Some dns) st q /\
+  (null dns = true -> etree_key dns st q = etree_key_gen None st q).
+Proof.
+  destruct q as [ns n]. unfold etree_key, etree_key_gen, clark. cbn [fst snd].
+  rewrite !py_in_keys_ahas. unfold py_bool_str, py_bool_optstr, py_str_optstr, optstr_eqb, py_bool_str.
+  change ([123%N] ++ ns ++ [125%N] ++ n) with (LBRACE :: ns ++ RBRACE :: n).
+  change ([123%N] ++ dns ++ [125%N] ++ n) with (LBRACE :: dns ++ RBRACE :: n).
+  split.
+  - destruct (null ns); cbn [negb andb]; [|reflexivity]. reflexivity.
+  - intros Hd. destruct dns; [|discriminate]. cbn [null negb andb].
+    destruct (null ns) eqn:En; cbn [negb andb orb]; [reflexivity|].
+    destruct ns; [discriminate|]. reflexivity.
+Qed.
+
+(* ------------------------------------------------------------------------------------------ *)
+(* views at the level of the model: one guarded step whose specification answer is known        *)
+Lemma step_via_spec y x d1 r1 :
+  sys_wf y = true -> step_safe y x = true -> (forall h, dict_step (abs_sys y) x h = (d1, r1)) -> r1 <> RUnspec ->
+  sys_wf (fst (sys_step y x)) = true /\ abs_sys (fst (sys_step y x)) = d1 /\ snd (sys_step y x) = r1.
+Proof.
+  intros W Hs Hspec Hr. destruct (refines_all y x W Hs) as [W1 [r' [H A]]]. rewrite Hspec in H. inversion H. subst.
+  split; [exact W1|]. split; [reflexivity|]. destruct A as [A|A]; [contradiction|symmetry; exact A].
+Qed.
+
+Lemma value_safe y i w : nth_error (d_views (abs_sys y)) i = Some w -> step_safe y (OValue i) = true.
+Proof.
+  intros H. destruct y as [s T]. cbn [step_safe]. apply Nat.ltb_lt.
+  pose proof (abs_views_length (s, T)) as HL. cbn [snd] in HL. rewrite <- HL. apply nth_error_Some. rewrite H. discriminate.
+Qed.
+
+(* a held object whose entry is renamed through it (local_name or namespace assignment `x`, which the
+   specification reads as the move k -> k') views the moved entry *)
+Theorem view_renamed y x i k k' v :
+  sys_wf y = true -> step_safe y x = true ->
+  (forall h, dict_step (abs_sys y) x h = d_rename (abs_sys y) i k k') ->
+  nth_error (d_views (abs_sys y)) i = Some (VLive k) -> dget (d_dict (abs_sys y)) k = Some v -> k <> k' ->
+  let y1 := fst (sys_step y x) in
+  snd (sys_step y x) = RNone /\
+  dget (d_dict (abs_sys y1)) k' = Some v /\ dget (d_dict (abs_sys y1)) k = None /\
+  nth_error (d_views (abs_sys y1)) i = Some (VLive k') /\
+  snd (sys_step y1 (OValue i)) = RStr v.
+Proof.
+  intros W Hs Hspec Hi Hv Hne y1.
+  destruct (spec_view_renamed (abs_sys y) i k k' v Hi Hv (abs_nodup_sys y W) Hne) as [H1 [H2 [H3 H4]]].
+  assert (snd (d_rename (abs_sys y) i k k') = RNone) as Hr.
+  { unfold d_rename. rewrite (eqb_neq qname_eqb qname_eqb_eq k k' Hne), Hv. reflexivity. }
+  destruct (step_via_spec y x (fst (d_rename (abs_sys y) i k k')) RNone W Hs) as [W1 [Hab Ho]].
+  { intros h. rewrite Hspec, <- Hr. apply surjective_pairing. }
+  { discriminate. }
+  fold y1 in W1, Hab. split; [exact Ho|]. rewrite Hab. split; [exact H1|]. split; [exact H2|]. split; [exact H3|].
+  assert (step_safe y1 (OValue i) = true) as Hs2 by (apply (value_safe y1 i (VLive k')); rewrite Hab; exact H3).
+  destruct (step_via_spec y1 (OValue i) (abs_sys y1) (RStr v) W1 Hs2) as [_ [_ Ho2]]; [| discriminate | exact Ho2].
+  intros h. rewrite Hab. specialize (H4 h). rewrite <- H4.
+  cbn [dict_step]. rewrite H3. reflexivity.
+Qed.
+
+(* a value written through the mapping shows in the held object, and a value written through the object shows in the node *)
+Theorem view_reads_write y a i k v' :
+  sys_wf y = true -> step_safe y (OSet a v') = true -> acc_key (abs_sys y) a = Some k ->
+  nth_error (d_views (abs_sys y)) i = Some (VLive k) ->
+  snd (sys_run y [OSet a v'; OValue i]) = [RNone; RStr v'].
+Proof.
+  intros W Hs Hk Hi.
+  destruct (step_via_spec y (OSet a v') (with_dict (abs_sys y) (dset (d_dict (abs_sys y)) k v')) RNone W Hs) as [W1 [Hab Ho]].
+  { intros h. cbn [dict_step]. unfold with_k. rewrite Hk. reflexivity. }
+  { discriminate. }
+  cbn [sys_run]. destruct (sys_step y (OSet a v')) as [y1 o1] eqn:E1. cbn [fst snd] in *. subst o1.
+  assert (nth_error (d_views (abs_sys y1)) i = Some (VLive k)) as Hi1 by (rewrite Hab; exact Hi).
+  destruct (step_via_spec y1 (OValue i) (abs_sys y1) (RStr v') W1 (value_safe y1 i _ Hi1)) as [_ [_ Ho2]]; [|discriminate|].
+  { intros h. pose proof (spec_view_reads_node (abs_sys y) i k v' h Hi) as Hsp. rewrite <- Hab in Hsp.
+    rewrite <- Hsp. cbn [dict_step]. rewrite Hi1. reflexivity. }
+  destruct (sys_step y1 (OValue i)) as [y2 o2]. cbn [snd] in *. subst o2. reflexivity.
+Qed.
+
+Theorem view_write_shows y i k v' :
+  sys_wf y = true -> nth_error (d_views (abs_sys y)) i = Some (VLive k) ->
+  let y1 := fst (sys_step y (OSetValue i v')) in
+  snd (sys_step y (OSetValue i v')) = RNone /\ dget (d_dict (abs_sys y1)) k = Some v' /\
+  snd (sys_step y1 (OValue i)) = RStr v'.
+Proof.
+  intros W Hi y1.
+  assert (step_safe y (OSetValue i v') = true) as Hs.
+  { pose proof (value_safe y i _ Hi) as H. destruct y as [s T]. exact H. }
+  destruct (step_via_spec y (OSetValue i v') (with_dict (abs_sys y) (dset (d_dict (abs_sys y)) k v')) RNone W Hs) as [W1 [Hab Ho]].
+  { intros h. apply (spec_view_writes_node (abs_sys y) i k v' h Hi). }
+  { discriminate. }
+  fold y1 in W1, Hab. split; [exact Ho|]. rewrite Hab. split.
+  { cbn [d_dict with_dict]. unfold dget, dset. apply (aget_aset_same qname_eqb qname_eqb_eq). }
+  assert (nth_error (d_views (abs_sys y1)) i = Some (VLive k)) as Hi1 by (rewrite Hab; exact Hi).
+  destruct (step_via_spec y1 (OValue i) (abs_sys y1) (RStr v') W1 (value_safe y1 i _ Hi1)) as [_ [_ Ho2]]; [|discriminate|exact Ho2].
+  intros h. pose proof (spec_view_reads_node (abs_sys y) i k v' h Hi) as Hsp. rewrite <- Hab in Hsp.
+  rewrite <- Hsp. cbn [dict_step]. rewrite Hi1. reflexivity.
+Qed.
+
+Theorem view_renamed_local y i k v n :
+  sys_wf y = true -> step_safe y (OSetLocal i n) = true ->
+  nth_error (d_views (abs_sys y)) i = Some (VLive k) -> dget (d_dict (abs_sys y)) k = Some v -> k <> (fst k, n) ->
+  let y1 := fst (sys_step y (OSetLocal i n)) in
+  snd (sys_step y (OSetLocal i n)) = RNone /\
+  dget (d_dict (abs_sys y1)) (fst k, n) = Some v /\ dget (d_dict (abs_sys y1)) k = None /\
+  nth_error (d_views (abs_sys y1)) i = Some (VLive (fst k, n)) /\
+  snd (sys_step y1 (OValue i)) = RStr v.
+Proof.
+  intros W Hs Hi Hv Hne. apply (view_renamed y (OSetLocal i n) i k (fst k, n) v); try assumption.
+  intros h. cbn [dict_step]. rewrite Hi. reflexivity.
+Qed.
+
+Theorem view_renamed_ns y i k v ns :
+  sys_wf y = true -> step_safe y (OSetNs i ns) = true ->
+  nth_error (d_views (abs_sys y)) i = Some (VLive k) -> dget (d_dict (abs_sys y)) k = Some v ->
+  k <> norm (d_dns (abs_sys y)) (ns, snd k) ->
+  let k' := norm (d_dns (abs_sys y)) (ns, snd k) in
+  let y1 := fst (sys_step y (OSetNs i ns)) in
+  snd (sys_step y (OSetNs i ns)) = RNone /\
+  dget (d_dict (abs_sys y1)) k' = Some v /\ dget (d_dict (abs_sys y1)) k = None /\
+  nth_error (d_views (abs_sys y1)) i = Some (VLive k') /\
+  snd (sys_step y1 (OValue i)) = RStr v.
+Proof.
+  intros W Hs Hi Hv Hne. apply (view_renamed y (OSetNs i ns) i k (norm (d_dns (abs_sys y)) (ns, snd k)) v); try assumption.
+  intros h. cbn [dict_step]. rewrite Hi. reflexivity.
 Qed.
